@@ -24,11 +24,15 @@ BOUNDS_C19 = {
 }
 
 BOUNDS_HEVAL = {
-    'quick': 'all DAGs on <=3 jobs x all 3^N kind assignments under S-test (string inequality, real MIR of StrategyForTesting) '
-             'and S-rel (comparison = arbitrary equivalence relation); 6 curated 4-job shapes under S-test; one evaluation from '
-             'every well-formed symbolic history; every interleaving, every failure subset, abort at every quiescent point, '
-             'every cleanup-acknowledgement delay',
-    'thorough': 'quick + S-prod (production shortcut last==current) for N<=3, curated 4-job shapes under S-rel',
+    'quick': 'every listed universe is explored completely (every interleaving, every failure subset, abort at every quiescent point, every '
+             'cleanup-acknowledgement delay, every solver-feasible value of the symbolic records/presence bits/outputs/comparison). Universes: '
+             '(1) all DAGs on <=3 jobs x all 3^N kind assignments from every well-formed symbolic history, under S-test (string inequality, real MIR of '
+             'StrategyForTesting) and S-reld (comparison = arbitrary equivalence relation, possibly different per consumer); (2) 6 curated 4-job shapes and a '
+             'seeded sample of 60 of the 5184 four-job graphs, same symbolic history, S-test; (3) H-BUILT (project completely built before; symbolic: presence '
+             'of every result file, every reported output): 15 curated 4-7 job shapes, a seeded sample of 300 four-job graphs and of 600 of the 1582 '
+             'chain-family shapes (<= 6 jobs; all shapes with >= 3 Ephemerals), S-test; 80 of them also under S-reld. The sample depends on VERIF_SEED.',
+    'thorough': 'quick universes with S-rel and S-prod (production shortcut last==current) added for N<=3; 600 four-job graphs from the symbolic history; '
+                'H-BUILT: all 5184 four-job graphs, the complete chain family (1582 shapes, <= 6 jobs), 300 random 5-7 job graphs; 900 of them under S-reld',
 }
 
 ASSUMPTIONS = [
@@ -44,6 +48,29 @@ ASSUMPTIONS = [
     'dump (solver.by_class["cvc5-crosscheck"]); a disagreement makes the run inconclusive',
     'cleanup blocks / unwinding paths are not executed: a panic ends the run and is reported',
 ]
+
+
+FAMILY_BOUNDS = {
+    'H-EVAL': BOUNDS_HEVAL,
+    'H-IND': {'quick': BOUNDS_C01 + '; H-BUILT universes: 15 curated shapes, seeded samples of 300 four-job graphs and 300 chain-family shapes',
+              'thorough': BOUNDS_C01 + '; H-BUILT universes: all four-job graphs, the complete chain family, 100 random 5-7 job graphs'},
+    'H-SIZE': BOUNDS_C19,
+    'H-RESUME': {'quick': 'H-RESUME: interrupted evaluation (every failure subset / abort point / schedule) from every Sound symbolic history, failure-free resume '
+                          'from the symbolic history it returned (every schedule), every uninterrupted evaluation from the same start; job behaviours deterministic; '
+                          'all DAGs on <=3 jobs x kinds under S-test; H-BUILT: curated shapes with <= 5 jobs and 40 sampled four-job graphs',
+                 'thorough': 'quick + S-rel for N<=3; H-BUILT: all curated shapes, 600 four-job graphs, 200 chain-family shapes'},
+    'H-EVAL2': {'quick': 'H-EVAL2: every failure-free evaluation from every well-formed symbolic history followed by a second evaluation from the symbolic '
+                         'history it returned; all DAGs on <=3 jobs x kinds under S-test and S-rel, 6 curated 4-job shapes, the stale-record / renamed '
+                         'multi-output / production-convention universes of H-HIST; H-BUILT: curated shapes, 200 four-job graphs, 120 chain-family shapes',
+                'thorough': 'quick + H-BUILT: all four-job graphs, the complete chain family, 100 random 5-7 job graphs'},
+    'H-ORDER': {'quick': 'H-ORDER: failure-free evaluation under every interleaving and cleanup delay, under 3 declaration orders (identity, reverse, rotation); '
+                         'pairwise outcome comparison by z3; all DAGs on <=3 jobs x kinds under S-test and S-reld; 6 curated 4-job shapes; H-BUILT: curated '
+                         'shapes, 200 four-job graphs, 200 chain-family shapes',
+                'thorough': 'all node permutations x {edge order, reversed} for N<=3, S-rel and S-prod added; H-BUILT: all four-job graphs, complete chain family'},
+    'H-HIST': {'quick': 'H-HIST: 11 universes with symbolic stale records (absent jobs, removed dependencies, superseded multi-output ids) + 4 under the '
+                        'production input-name convention; every schedule / failure subset / abort point',
+               'thorough': 'quick + S-rel'},
+}
 
 
 def sources_for(prop):
@@ -442,9 +469,10 @@ def write_evidence(prop, tier, seed, out):
             'obligations_decided_by_pc_literal_evaluation': res['by_eval'],
             'solver': res['solver'], 'mir_blocks_executed': res['mir_blocks'],
             'per_family': res['per_family'], 'monitor_stats': res['mon_stats'],
-            'bounds': BOUNDS_C01 if prop == 'C01' else (BOUNDS_C19[tier] if prop == 'C19' else BOUNDS_HEVAL[tier]),
-            'outside_the_claim': 'graphs with more than 3 jobs except the curated 4-job shapes; chains of evaluations other than through '
-                                 'the one-step history invariant; hash iteration order; the python driver',
+            'bounds': ' || '.join((FAMILY_BOUNDS[f][tier] if isinstance(FAMILY_BOUNDS.get(f), dict) else str(FAMILY_BOUNDS.get(f, f))) for f in out['families']),
+            'outside_the_claim': 'graphs that are not among the listed universes (in particular > 7 jobs except in H-SIZE); histories of larger graphs '
+                                 'other than "completely built"; chains of evaluations other than through the one-step history invariants (WF, Sound) and '
+                                 'the two-evaluation harnesses; hash iteration order; the python driver',
             'difftest': {'chains': dt['chains'], 'scenarios': dt['scenarios'], 'events': dt['events'], 'mismatches': len(dt['mismatches'])},
             'counterexamples_replayed_natively': out['replays'],
             'functions_encoded': 'all fn engine::* MIR bodies + StrategyForTesting impl (see DESIGN.md section 4); executed blocks are counted in mir_blocks_executed',
